@@ -134,7 +134,8 @@ TreeCasesOf(n) == { [n |-> n, d |-> d, ids |-> WithTail(n, d), w |-> w] :
 TreeExpect(c) ==
     LET s == Leaves(c.w, c.ids) IN
     [ root  |-> RefRoot(s),
-      store |-> IF Len(s) = 0 THEN << >> ELSE StoreArr(s),
+      \* the root is always the last entry of the store: of no leaves, the only one
+      store |-> IF Len(s) = 0 THEN <<Z>> ELSE StoreArr(s),
       peaks |-> RollingPeaks(s) ]
 
 TreeLaws ==
@@ -142,7 +143,9 @@ TreeLaws ==
         LET c == case.c
             s == Leaves(c.w, c.ids)
             n == Len(s)
-        IN  n > 0 =>
+        IN
+        /\ (n = 0 => expect.root = Z /\ expect.store = <<Z>> /\ expect.peaks = << >>)
+        /\ n > 0 =>
             \* the three constructions are the definition
             /\ StoreRoot(s) = expect.root
             /\ RollingRoot(s, IF c.w THEN W(c.ids[n]) ELSE T(c.ids[n])) = expect.root
